@@ -146,6 +146,16 @@ def observe(spec, A, B, C):
     rec("update", upd)
     if out["update"][0] == "ok":
         rec("update_predict", lambda: det2.predict(B))
+
+        # whatever the index kind: update(new) == fit(new.combine_first(old))
+        def combined():
+            a = A if isinstance(A, (pd.Series, pd.DataFrame)) else pd.DataFrame(A)
+            b = B if isinstance(B, (pd.Series, pd.DataFrame)) else pd.DataFrame(B)
+            twin = build(spec).fit(b.combine_first(a))
+            return {k: float(getattr(twin, k)) for k in ("threshold_", "penalty_", "collective_penalty_",
+                                                        "point_penalty_") if hasattr(twin, k)}
+
+        rec("fit_on_combined", combined)
     return out
 
 
@@ -174,7 +184,8 @@ def make_recipe(rng, tier, which):
         hi = 22
     n = int(rng.integers(max(nmin, 6), max(nmin, 6) + hi))
     nb = int(rng.integers(max(nmin, 4), max(nmin, 4) + 15))
-    return {"kind": "detector", "det": spec, "A": integer_data(rng, n, p), "B": integer_data(rng, nb, p),
+    return {"kind": "detector", "det": spec, "overlap": int(rng.integers(0, 6)) if rng.random() < 0.6 else 0,
+            "A": integer_data(rng, n, p), "B": integer_data(rng, nb, p),
             "C": integer_data(rng, int(rng.integers(max(nmin, 4), max(nmin, 4) + 20)), p)}
 
 
@@ -197,7 +208,7 @@ def detector_case(ctx, r):
             base = observe(spec, represent(A, "baseline"), represent(B, "baseline"), represent(C, "baseline"))
             results = {}
             for rep in reps:
-                off = 0 if index_semantics(rep) == "range0" else n
+                off = 0 if index_semantics(rep) == "range0" else n - int(r.get("overlap", 0))
                 results[rep] = observe(spec, represent(A, rep), represent(B, rep, offset=off),
                                        represent(C, rep))
             # update is index-semantic: reference for each semantics is the float DataFrame with that index
@@ -212,10 +223,19 @@ def detector_case(ctx, r):
     events = base.get("predict", ("exc",))[0] == "ok" and len(base["predict"][1]) >= 1
     if events:
         ctx.stat("baseline_with_events")
+    for rep, obs in list(results.items()) + [("baseline", base)]:
+        u, c = obs.get("update"), obs.get("fit_on_combined")
+        if u and c and u[0] == "ok" and c[0] == "ok":
+            ctx.stat("update_vs_fit_combined")
+            if not same_value(c[1], u[1]):
+                ctx.violation(sub, "update-vs-fit-combined", f"{label}: representation {rep}: fitted parameters "
+                              f"after update {u[1]} != fit on old+new combined {c[1]}", r, {"rep": rep})
     for rep, obs in results.items():
         ctx.case()  # one case = one (configuration, data, representation) compared with the baseline
         ctx.stat("representations_compared")
         for entry, (st, val) in obs.items():
+            if entry == "fit_on_combined":
+                continue
             ref = base
             if entry in ("update", "update_predict"):
                 ref = upd_ref[index_semantics(rep)]
